@@ -60,8 +60,13 @@ func appFree(s *sim.S, m *mangos.Message) {
 // appSend hands m to send; on failure the message must still be the caller's, body intact.
 func appSend(s *sim.S, m *mangos.Message, send func(*mangos.Message) error) error {
 	if !ledgerOn.Load() {
+		before := digest(m.Header) + digest(m.Body)
 		err := send(m)
 		if err != nil {
+			// a failed Send leaves the message with the caller, header and body as they were: it could be sent again
+			if digest(m.Header)+digest(m.Body) != before {
+				s.Rec.Emit("sendfailchanged", "r", err, "hl", len(m.Header), "len", len(m.Body))
+			}
 			m.Free()
 		}
 		return err
